@@ -72,6 +72,25 @@ UNIT = dict(
             dict(rule='R10', lit='*out_byte = in_byte ^ i;', to='key[__k3 - 1] = keysrc[__k3 - 1] ^ i;', count=1, note='zip template: element k of both'),
             dict(rule='R5', lit='Rc4::new(&key).encrypt(&result)', to='Rc4::new(key.as_slice()).encrypt(result.as_slice())', count=1, note='&Vec<u8> as &[u8]'),
         ])),
+        dict(file=A, impl='PasswordAlgorithm', name='compute_hashed_user_password_r2', rules=dict(no_sink=True, raw_sig=True, pre_subst=[
+            dict(rule='R11', pat=r'fn compute_hashed_user_password_r2<U>\(\s*&self,\s*doc: &Document,\s*user_password: U,\s*\) -> Result<Vec<u8>, DecryptionError>\s*where\s*U: AsRef<\[u8\]>,\s*\{', to='fn compute_hashed_user_password_r2(&self, doc: &Document, user_password: &[u8]) -> (r: core::result::Result<Vec<u8>, DecryptionError>)\n    {', count=1, note='AsRef<[u8]> at &[u8]; result named'),
+        ], subst=[
+            dict(rule='R5', lit='Rc4::new(&file_encryption_key).encrypt(PAD_BYTES)', to='Rc4::new(file_encryption_key.as_slice()).encrypt(PAD_BYTES.as_slice())', count=1, note='&Vec<u8> / array as &[u8]'),
+        ])),
+        dict(file=A, impl='PasswordAlgorithm', name='compute_hashed_user_password_r3_r4', rules=dict(no_sink=True, raw_sig=True, loops={1: dict(kind='keep'), 2: dict(kind='index', limit='min_len(file_encryption_key.as_slice(), &key)')}, pre_subst=[
+            dict(rule='R11', pat=r'fn compute_hashed_user_password_r3_r4<U>\(\s*&self,\s*doc: &Document,\s*user_password: U,\s*\) -> Result<Vec<u8>, DecryptionError>\s*where\s*U: AsRef<\[u8\]>,\s*\{', to='fn compute_hashed_user_password_r3_r4(&self, doc: &Document, user_password: &[u8]) -> (r: core::result::Result<Vec<u8>, DecryptionError>)\n    {', count=1, note='AsRef<[u8]> at &[u8]; result named'),
+            dict(rule='R5', pat=r'let file_id_0 = doc\s*\.trailer\s*\.get\(b"ID"\)\s*\.map_err\(\|_\| DecryptionError::MissingFileID\)\?\s*\.as_array\(\)\s*\.map_err\(\|_\| DecryptionError::InvalidType\)\?\s*\.first\(\)\s*\.ok_or\(DecryptionError::InvalidType\)\?\s*\.as_str\(\)\s*\.map_err\(\|_\| DecryptionError::InvalidType\)\?;', to='let file_id_0 = doc.file_id_0()?;', count=1, note='the accessor chain trailer.get(ID).as_array().first().as_str() is dropped from the verified text: shim Document::file_id_0'),
+            dict(rule='R10', lit='for (in_byte, out_byte) in file_encryption_key.iter().zip(key.iter_mut()) {', to='for (in_byte, out_byte) in file_encryption_key_zip_key {', count=1, note='zip template (index loop over the shorter length)'),
+        ], subst=[
+            dict(rule='R5', lit='hasher.update(PAD_BYTES);', to='hasher.update(PAD_BYTES.as_slice());', count=1, note='array as &[u8]'),
+            dict(rule='R5', lit='Rc4::new(&file_encryption_key).encrypt(hash)', to='Rc4::new(file_encryption_key.as_slice()).encrypt(hash.as_slice())', count=1, note='&Vec<u8> / GenericArray as &[u8]'),
+            dict(rule='R5', lit='vec![0u8; file_encryption_key.len()]', to='zeros(file_encryption_key.len())', count=1, note='vec![0; n] shim'),
+            dict(rule='R2', lit='for i in 1..=19', to='for i in 1u8..20u8', count=1, note='inclusive range as half-open range (u8, inferred from `in_byte ^ i`)'),
+            dict(rule='R10', lit='*out_byte = in_byte ^ i;', to='key[__k2 - 1] = file_encryption_key[__k2 - 1] ^ i;', count=1, note='zip template: element k of both'),
+            dict(rule='R5', lit='Rc4::new(&key).encrypt(&result)', to='Rc4::new(key.as_slice()).encrypt(result.as_slice())', count=1, note='&Vec<u8> as &[u8]'),
+            dict(rule='R5', lit='result.resize(32, 0);', to='resize_zero(&mut result, 32);', count=1, note='Vec::resize shim'),
+            dict(rule='R5', pat=r'let mut rng = rand::rng\(\);\s*rng\.fill\(&mut result\[16\.\.\]\);', to='fill_random_from(&mut result, 16);', count=1, note='rand: the bytes from 16 on become arbitrary (shim)'),
+        ])),
         dict(file=E, impl='Permissions', name='p_value', rules=dict(no_sink=True)),
     ],
 )
